@@ -157,6 +157,8 @@ pub struct FlexScen {
     seed: u64,
     /// (proposal id, block height of the successful Propose)
     ph: Vec<(u64, u64)>,
+    /// generator: the current world was instantiated as a 'treasury story' (see gen_inst)
+    story: std::cell::Cell<bool>,
     /// generator: the previous line was an `env` line
     last_env: bool,
     /// generator: no block change since the instantiation yet
@@ -288,6 +290,7 @@ impl FlexScen {
             ghost: z,
             seed: 0,
             ph: vec![],
+            story: std::cell::Cell::new(false),
             last_env: false,
             fresh_inst: false,
             exec_failed: vec![],
@@ -1051,8 +1054,19 @@ impl FlexScen {
             13..=18 => format!("cw20:{amt}:{refund}"),
             _ => format!("cw20x:{amt}:{refund}"),
         };
+        // 'treasury story' (1/8): refundable native deposit, empty treasury, short period, a threshold one voter can meet
+        let story = rng.chance(1, 8);
+        self.story.set(story);
+        let (thr, period, deposit) = if story {
+            ("count:2".to_string(), format!("h{}", 2 + rng.below(3)), format!("native:{}:{}:1", DENOMS[0], 1 + rng.below(4)))
+        } else {
+            (thr, period, deposit)
+        };
         let mut bank: Vec<String> = self.pool.iter().map(|a| format!("{}:{}:{}", a, rng.below(60), rng.below(30))).collect();
-        bank.push(format!("{}:{}:{}", self.flex, rng.below(40), rng.below(6)));
+        // an empty treasury (1/3): the multisig then holds exactly the deposits taken, so a proposal spending
+        // the deposit denom leaves it short of another proposal's refund
+        let treasury = if story || rng.chance(1, 3) { 0 } else { rng.below(40) };
+        bank.push(format!("{}:{}:{}", self.flex, treasury, rng.below(6)));
         let cw20bal: Vec<String> = self.pool.iter().map(|a| format!("{}:{}", a, rng.below(25))).collect();
         format!(
             "inst members={} admin={} hook={} thr={} period={} executor={} deposit={} bank={} cw20bal={}",
@@ -1258,31 +1272,48 @@ impl FlexScen {
 
     fn gen_msgs(&self, rng: &mut Rng, admin_is_flex: bool) -> String {
         let n = self.ph.len() as u64;
+        let dep = self.config().and_then(|c| c.proposal_deposit);
         let props: Vec<ProposalResponse> = (1..=n).filter_map(|id| self.prop(id)).collect();
         let votable: Vec<u64> =
             props.iter().filter(|p| p.status != Status::Executed && !p.expires.is_expired(&self.block)).map(|p| p.id).collect();
         let passed: Vec<u64> = props.iter().filter(|p| p.status == Status::Passed).map(|p| p.id).collect();
         let closable: Vec<u64> = props.iter().filter(|p| p.status == Status::Rejected && self.stored_open(p.id)).map(|p| p.id).collect();
         let k = match rng.below(10) {
-            0..=2 => 0,
+            0..=2 => if self.story.get() { 1 } else { 0 },
             3..=7 => 1,
             8 => 2,
             _ => 3,
         };
         let mut out = vec![];
         for _ in 0..k {
-            let r = rng.below(if admin_is_flex { 14 } else { 11 });
+            let r = if self.story.get() && rng.chance(1, 2) { 0 } else { rng.below(if admin_is_flex { 14 } else { 11 }) };
             let m = match r {
                 0..=3 => {
-                    let d = if rng.chance(5, 6) { DENOMS[0] } else { DENOMS[1] };
-                    let bal = self.bank_bal(&self.flex, d);
-                    let amt = match rng.below(8) {
-                        0 => 0,
-                        1 => bal + 1,
-                        2 => bal,
-                        3 => bal + 1 + rng.below(5) as u128,
-                        _ => 1 + rng.below(3) as u128,
+                    let mut d = if rng.chance(5, 6) { DENOMS[0] } else { DENOMS[1] };
+                    // with a refundable native deposit: spend the deposit denom, often all of it or all but less than
+                    // one deposit, so that the treasury is short of the refunds it still owes
+                    let owed = match &dep {
+                        Some(DepositInfo { amount, denom: cw20::Denom::Native(dn), refund_failed_proposals: true }) if n >= 1 => {
+                            if rng.chance(3, 4) {
+                                d = if dn == DENOMS[0] { DENOMS[0] } else { DENOMS[1] };
+                            }
+                            if dn == d { Some(amount.u128()) } else { None }
+                        }
+                        _ => None,
                     };
+                    let bal = self.bank_bal(&self.flex, d);
+                    let amt = if self.story.get() && rng.chance(3, 4) {
+                        1 + rng.below(2) as u128
+                    } else {
+                        match (owed, rng.below(8)) {
+                        (Some(_), 4) | (Some(_), 5) => bal,
+                        (Some(a), 6) => (bal + 1).saturating_sub(a).max(1),
+                        (_, 0) => 0,
+                        (_, 1) => bal + 1,
+                        (_, 2) => bal,
+                        (_, 3) => bal + 1 + rng.below(5) as u128,
+                        _ => 1 + rng.below(3) as u128,
+                    }};
                     let to = if rng.chance(1, 10) { self.flex.clone() } else { rng.pick(&self.pool).clone() };
                     format!("bank/{to}/{amt}{d}")
                 }
